@@ -89,3 +89,37 @@ let n_of_dec (s : string) : coq_N = n_of_int (int_of_string s)
 
 let cmp_letter (c : Datatypes.comparison) = match c with Datatypes.Lt -> "L" | Datatypes.Eq -> "E" | Datatypes.Gt -> "G"
 let b01 (b : bool) = if b then "1" else "0"
+
+(* shared deterministic helpers (same formulas as harness/src/util.rs and lib/gens/chunk.py) *)
+let pbyte (seed : int) (i : int) : int = ((seed * 131 + i * 2654435 + (i / 256) * 977) mod 1000003) mod 256
+
+let payload_ints_of_spec (spec : string) : int list =
+  let body = String.sub spec 1 (String.length spec - 1) in
+  match spec.[0] with
+  | 'h' -> List.map int_of_n (bytes_of_hex body)
+  | 'r' -> (match String.split_on_char '.' body with
+            | [len; seed] -> let len = int_of_string len and seed = int_of_string seed in List.init len (fun i -> pbyte seed i)
+            | _ -> failwith "payload spec")
+  | _ -> failwith "payload spec"
+
+let bytes_of_ints (l : int list) = List.map (fun i -> small.(i)) l
+
+let fnv32_n (data : BinNums.coq_N list) : int =
+  List.fold_left (fun h b -> ((h lxor (int_of_n b)) * 16777619) land 0xFFFFFFFF) 2166136261 data
+
+let rec take k l = if k = 0 then [] else match l with [] -> [] | x :: r -> x :: take (k - 1) r
+let rec drop k l = if k = 0 then l else match l with [] -> [] | _ :: r -> drop (k - 1) r
+
+let partition (spec : string) (data : 'a list) : 'a list list =
+  let body = String.sub spec 1 (String.length spec - 1) in
+  match spec.[0] with
+  | 'w' -> [data]
+  | 'b' -> List.map (fun x -> [x]) data
+  | 'k' -> let n = max 1 (int_of_string body) in
+    let rec go l acc = match l with [] -> List.rev acc | _ -> go (drop n l) (take n l :: acc) in go data []
+  | 'r' -> let seed = int_of_string body in
+    let rec go l i acc = match l with
+      | [] -> List.rev acc
+      | _ -> let sz = 1 + ((pbyte seed i) * 37 + pbyte (seed + 1) i) mod 700 in go (drop sz l) (i + 1) (take sz l :: acc) in
+    go data 0 []
+  | _ -> failwith "partition spec"
